@@ -994,6 +994,30 @@ def np_hstack(interp, args, kw):
     return concat(interp, parts)
 
 
+def np_insert(interp, args, kw):
+    """np.insert(arr, k, v) for a concrete position k and a scalar v: a copy
+    [arr[:k], v, arr[k:]] (axiom)."""
+    used(interp, "insert")
+    a, k, v = args[:3]
+    if not isinstance(k, int) or not is_scalar(v):
+        raise OutsideSubset("np.insert with symbolic position")
+    n, get, kind = seq_view_frozen(interp, a)
+    e = num_expr(v)
+    if kind == "real":
+        e = to_real(e)
+    interp.side_obligation("insert position in range", (z3.IntVal(n) if isinstance(n, int) else n) >= k)
+
+    def at(j):
+        j = z3.IntVal(j) if isinstance(j, int) else j
+        return z3.If(j < k, get(j), z3.If(j == k, e, get(j - 1)))
+    r = interp.array_from_fn(at, z3.simplify(n + 1) if not isinstance(n, int) else n + 1, kind, "insert")
+    r.dtype_name = a.dtype_name if isinstance(a, SArr) else r.dtype_name
+    return r
+
+
+axiom("insert", "np.insert(a, k, v) returns a copy with v placed before index k")
+
+
 def np_zeros_like(val):
     def f(interp, args, kw):
         n = args[0]
@@ -1086,6 +1110,7 @@ def install(interp):
     m[np.asarray] = np_asarray
     m[np.ascontiguousarray] = np_asarray
     m[np.hstack] = np_hstack
+    m[np.insert] = np_insert
     m[np.concatenate] = np_hstack
     m[np.sum] = np_sum
     m[np.all] = np_all_any("all")
